@@ -106,3 +106,8 @@ Proof. repeat split; reflexivity. Qed.
 From SymfcG Require Import ShapesSolvers SkelSolvers.
 Theorem c02_code_path_in_force : ShapesSolvers_as_recorded = true /\ SkelSolvers_as_recorded = true.
 Proof. repeat split; reflexivity. Qed.
+
+(** Further code on this property's path (invariance is demanded also with a cutoff: the cutoff geometry and the combination tables) is the recorded source: whole-function / skeleton match, regenerated on every run. *)
+From SymfcG Require Import ShapesCombos ShapesGeom ShapesAuxCut SkelCut.
+Theorem c02_code_path3_in_force : ShapesCombos_as_recorded = true /\ ShapesGeom_as_recorded = true /\ ShapesAuxCut_as_recorded = true /\ SkelCut_as_recorded = true.
+Proof. repeat split; reflexivity. Qed.
